@@ -53,6 +53,9 @@ type Options struct {
 	Sink     Sink
 	Keychain Keychain
 	Format   string // "yaml" (default) or "json"
+	// Ctx, if set, is the context handed to the Loader (cmds/server/main.go gives the Loader and Serve
+	// the same one); otherwise the stack gets a context of its own, cancelled by Close
+	Ctx context.Context
 }
 
 // Stack is one assembled reference configuration stack.
@@ -99,7 +102,11 @@ func New(doc []byte, o Options) (*Stack, error) {
 	if err != nil {
 		return nil, err
 	}
-	ctx, cancel := context.WithCancel(context.Background())
+	parent := o.Ctx
+	if parent == nil {
+		parent = context.Background()
+	}
+	ctx, cancel := context.WithCancel(parent)
 	l, err := loader.NewLoader(ctx, um,
 		loader.SetLoggerProvider(o.Logger),
 		loader.SetKeychainProvider(secret.New()),
